@@ -43,7 +43,7 @@ Implements(P, t, I) == IsIfaceT(P, I) /\ IfClosure(P, I) \subseteq MethodsOf(P, 
 \*        "otherfunc" (func() int) | "erralias" (type E = error) | "errlike" (named iface with Error())
 IsErrK(k) == k \in {"error", "erralias"}
 ResOK(res) ==
-  \/ Len(res) = 1
+  \/ Len(res) = 1 /\ res[1] # "none"          \* <<"none">> stands for an empty result list
   \/ Len(res) = 2 /\ (IsErrK(res[2]) \/ res[2] = "cleanup")
   \/ Len(res) = 3 /\ res[2] = "cleanup" /\ IsErrK(res[3])
 ResHasCl(res) == Len(res) \in {2, 3} /\ res[2] = "cleanup"
